@@ -1,4 +1,5 @@
 import PikaVerif.Model.Sched
+import PikaVerif.Model.SchedObl
 import PikaVerif.Gen.StateWord
 import Driver.Util
 /-! Driver for the scheduler protocol model (C01/C02): E2 logs. -/
@@ -67,7 +68,12 @@ def runCase (c : Case) : String :=
       let x := s.obj o
       x.live && !x.fresh && (x.q != 0 || x.holder.isSome || x.owner.isSome || x.pusher.isSome || !x.helpers.isEmpty ||
         (x.w.st != sTerminated && x.w.st != sSuspended)))
-    let fin := if bad.isEmpty then "final ok" else s!"final MISMATCH: objects not at rest {bad.take 5}"
+    -- C02x: every helper task that logged `sas.retry` has re-entered `set_thread_state` for the same
+    -- target on the same thread (hypothesis `owing [] post = []` of `C02_no_lost_wakeup`)
+    let ow := owing [] (ls.filterMap toEv)
+    let fin := if !bad.isEmpty then s!"final MISMATCH: objects not at rest {bad.take 5}"
+      else if !ow.isEmpty then s!"final MISMATCH: helper retries without re-entry into set_thread_state {ow.take 5}"
+      else "final ok"
     s!"case {c.id} accept {ls.length} ; {fin} ; {monS}"
 
 end Driver.SchedDrv
